@@ -124,7 +124,7 @@ fn cases(thorough: bool) -> Vec<Case> {
             let p = problem(pid, args);
             let jacs: Vec<&'static str> = if is_implicit(m) { if *pid == "decay" || *pid == "osc" || *pid == "lin3" { vec!["none", "callable", "constant"] } else { vec!["none", "callable"] } } else { vec!["none"] };
             for jac in jacs {
-                for opt in 0..10 {
+                for opt in 0..11 {
                     if jac != "none" && ![0, 1, 3].contains(&opt) {
                         continue;
                     }
@@ -139,7 +139,7 @@ fn cases(thorough: bool) -> Vec<Case> {
                             c.rtol = Tol::S(1e-8);
                             c.atol = Tol::S(1e-10);
                             c.dense = true;
-                            sol_ts = vec![0.0, 0.37 * span, 0.5 * span, *span, -0.25, span + 0.5];
+                            sol_ts = vec![0.0, 0.03 * span, 0.37 * span, 0.5 * span, 0.77 * span, 0.97 * span, *span, -0.25, span + 0.5];
                         }
                         2 => c.t_eval = Some((0..=6).map(|i| span * i as f64 / 6.0).collect()),
                         3 => {
@@ -160,6 +160,13 @@ fn cases(thorough: bool) -> Vec<Case> {
                             c.x0 = *span;
                             c.xend = 0.0;
                             c.t_eval = Some((0..=4).map(|i| span - span * i as f64 / 4.0).collect());
+                        }
+                        10 => {
+                            // backward run with dense output: sol(t) across all segments
+                            c.x0 = *span;
+                            c.xend = 0.0;
+                            c.dense = true;
+                            sol_ts = vec![*span, 0.97 * span, 0.77 * span, 0.5 * span, 0.37 * span, 0.05 * span, 0.0];
                         }
                         9 => {
                             // a terminal, direction-filtered event first, then event functions that
@@ -268,12 +275,9 @@ pub fn run_check(args: &[String], _replay: Option<Value>) -> i32 {
                     for t in &c.sol_ts {
                         let v = s.continuous_sol.as_ref().and_then(|co| co.evaluate_extrapolate(*t));
                         let inside = s.sol(*t).ok();
-                        if let (Some(a), Some(b)) = (&v, &inside) {
-                            if a.iter().zip(b).any(|(x, y)| x.to_bits() != y.to_bits()) {
-                                sol_vals.push(json!({"t": hex(*t), "y": null, "note": "sol and evaluate_extrapolate disagree inside the span"}));
-                                continue;
-                            }
-                        }
+                        // inside the span the reference is the Rust API's own sol(t); outside it (where
+                        // the Rust sol refuses) the extrapolating evaluation the binding is built on
+                        let v = inside.or(v);
                         sol_vals.push(json!({"t": hex(*t), "y": v.map(|x| hexs(&x))}));
                     }
                     (
@@ -311,12 +315,12 @@ pub fn run_check(args: &[String], _replay: Option<Value>) -> i32 {
                 rep.machinery_errors.push(e.as_str().unwrap_or("").to_string());
             }
         }
-        rep.dims = json!({"cases": "six methods x 5 problems x 9 option sets (defaults, tight+dense+sol, t_eval, events+dense, terminal event, max_steps=3, first/max_step, backward+t_eval, vector tolerances) x Jacobian source (none/callable/constant) for the implicit methods",
+        rep.dims = json!({"cases": "six methods x 5 problems x 9 option sets (defaults, tight+dense+sol, t_eval, events+dense, terminal event, max_steps=3, first/max_step, backward+t_eval, vector tolerances, backward+dense+sol) x Jacobian source (none/callable/constant) for the implicit methods",
             "sparsity": format!("every boolean Jacobian pattern on n <= {}, and for n = 5, 6, 8 every union of at most three diagonals plus arrow patterns, x (Radau, BDF) x (without, with jac_sparsity)", if thorough { 4 } else { 3 }), "python": v["python"].clone()});
-        for t in ["bitwise-equal", "status-0", "status-1", "status--1", "sparsity-pattern", "sparsity-saves-evaluations", "constant-jac", "args", "sol-outside-span"] {
+        for t in ["bitwise-equal", "status-0", "status-1", "status--1", "sparsity-pattern", "sparsity-saves-evaluations", "constant-jac", "args", "sol-outside-span", "jac-representations"] {
             rep.require(t, 1);
         }
-        rep.rule = "the harness runs every case through the Rust API and writes the results with hex-encoded doubles; py/c20.py defines each problem with the same floating-point operations in the same order as Python callables, calls ivp.solve_ivp of the extension module built from the working tree, and compares bit patterns, shapes, dtypes, status mapping, counters, sol(t) inside and outside the span, args propagation, constant vs callable Jacobian; every sparsity pattern: results bitwise equal with and without jac_sparsity (and equal to the Rust run), RHS calls per Jacobian = groups+1; non-trivial = case executed on both sides; distinct = distinct (case, result fingerprint)".into();
+        rep.rule = "the harness runs every case through the Rust API and writes the results with hex-encoded doubles; py/c20.py defines each problem with the same floating-point operations in the same order as Python callables, calls ivp.solve_ivp of the extension module built from the working tree, and compares bit patterns, shapes, dtypes, status mapping, counters, sol(t) inside and outside the span, args propagation, constant vs callable Jacobian, the same Jacobian as C-ordered / Fortran-ordered / transposed view / strided view / CSC / CSR (bit-identical results); every sparsity pattern: results bitwise equal with and without jac_sparsity (and equal to the Rust run), RHS calls per Jacobian = groups+1; non-trivial = case executed on both sides; distinct = distinct (case, result fingerprint)".into();
         rep.assumptions.push("CPython float arithmetic is IEEE double without contraction; the right-hand sides use only + - * (no libm calls), so bit equality is meaningful".into());
         return rep.finish();
     }
